@@ -29,17 +29,18 @@ type Exec struct {
 	defers   []*ssa.Defer
 	parent   *Exec
 	// loop structure
-	headers  map[*ssa.BasicBlock]*loopInfo
-	rpo      []*ssa.BasicBlock
-	outEdges map[*ssa.BasicBlock][]*State // per successor index
-	blockIn  map[*ssa.BasicBlock]*State
-	rets     []retPoint
-	counts   map[string]int
-	callOrd  map[string]int
-	defaultProps []string
-	oldCtr   int
-	invoked  map[string]bool // names of function-typed params tracked
-	specMode bool            // evaluating a contract expression: no obligations, no assumptions
+	headers       map[*ssa.BasicBlock]*loopInfo
+	rpo           []*ssa.BasicBlock
+	outEdges      map[*ssa.BasicBlock][]*State // per successor index
+	blockIn       map[*ssa.BasicBlock]*State
+	rets          []retPoint
+	counts        map[string]int
+	callOrd       map[string]int
+	defaultProps  []string
+	oldCtr        int
+	invoked       map[string]bool // names of function-typed params tracked
+	specMode      bool            // evaluating a contract expression: no obligations, no assumptions
+	defSeen       map[ssa.Value]bool
 	nWF           int // number of hypotheses before the function's own requires were assumed
 	extraRequires []*SExpr
 	noReturnOK    bool
@@ -57,6 +58,7 @@ type loopInfo struct {
 	blocks  map[*ssa.BasicBlock]bool
 	phiVals map[*ssa.Phi]Value
 	decr    *Term
+	held    map[string]*Term
 }
 
 func (e *Exec) oblName(kind, label string) string {
@@ -124,7 +126,7 @@ func (e *Exec) safe(kind string, st *State, goal *Term, pos token.Pos) {
 
 func NewExec(P *Program, C *Contracts, fn *ssa.Function) *Exec {
 	e := &Exec{P: P, C: C, fn: fn, ctx: newVCtx(), vals: map[ssa.Value]Value{}, params: map[string]Value{}, lets: map[string]Value{},
-		counts: map[string]int{}, callOrd: map[string]int{}}
+		counts: map[string]int{}, callOrd: map[string]int{}, defSeen: map[ssa.Value]bool{}}
 	e.topName = funcKey(fn)
 	e.fc = C.lookup(e.topName)
 	if e.fc == nil && fn.Origin() != nil {
@@ -195,6 +197,26 @@ func (e *Exec) Verify() (obls []*Obligation, err error) {
 	}
 	out := e.run(st, nil)
 	_ = out
+	// vacuity: every site clause of the contract must have matched a program point, and every
+	// loop clause a loop
+	if e.fc != nil {
+		for ai, sa := range e.fc.Asserts {
+			if e.counts[fmt.Sprintf("site:%d:%s", ai, sa.When)] == 0 {
+				return nil, fmt.Errorf("%s: contract clause '%s %s: %s' matches no program point", shortKey(e.topName), sa.When, sa.Pattern, sa.Clause.Text)
+			}
+		}
+		for n := range e.fc.Loops {
+			found := false
+			for _, li := range e.headers {
+				if li.ordinal == n {
+					found = true
+				}
+			}
+			if !found {
+				return nil, fmt.Errorf("%s: contract names loop %d, which does not exist", shortKey(e.topName), n)
+			}
+		}
+	}
 	return e.ctx.obls, nil
 }
 
@@ -506,9 +528,7 @@ func (e *Exec) enterLoop(li *loopInfo, in *State) *State {
 	env := e.newEnv(in, e.entry)
 	env.block = li.header
 	for k, cl := range ls.Invariants {
-		env.polarity = polProve
-		g := env.evalBool(cl.Expr)
-		e.addObl("inv", fmt.Sprintf("loop%d/%s/entry", li.ordinal, clauseLabel(cl, k)), cl.Text, e.fc.clauseProps(cl), in, g, li.header.Instrs[0].Pos())
+		e.invObligations(env, cl, k, li, "entry", in, li.header.Instrs[0].Pos())
 	}
 	// havoc
 	st := in.clone()
@@ -522,7 +542,12 @@ func (e *Exec) enterLoop(li *loopInfo, in *State) *State {
 		e.vals[phi] = e.freshValue(phiName(phi), phi.Type(), st)
 	}
 	// ghost counters may change in the loop
+	li.held = map[string]*Term{}
 	for k := range st.ghost {
+		if strings.HasPrefix(k, "held:") {
+			li.held[k] = st.ghost[k] // lock state is loop-invariant (checked at the back edge)
+			continue
+		}
 		st.ghost[k] = Fresh("ghost."+k, I64)
 	}
 	env = e.newEnv(st, e.entry)
@@ -581,9 +606,16 @@ func (e *Exec) closeLoop(li *loopInfo, from *ssa.BasicBlock, st *State) {
 	env := e.newEnv(st, e.entry)
 	env.block = li.header
 	for k, cl := range ls.Invariants {
-		env.polarity = polProve
-		g := env.evalBool(cl.Expr)
-		e.addObl("inv", fmt.Sprintf("loop%d/%s/step", li.ordinal, clauseLabel(cl, k)), cl.Text, e.fc.clauseProps(cl), st, g, from.Instrs[len(from.Instrs)-1].Pos())
+		e.invObligations(env, cl, k, li, "step", st, from.Instrs[len(from.Instrs)-1].Pos())
+	}
+	for k, v := range st.ghost {
+		if strings.HasPrefix(k, "held:") {
+			h0, ok := li.held[k]
+			if !ok {
+				h0 = ConstI(0, I64)
+			}
+			e.addObl("lock", fmt.Sprintf("loop%d-balanced", li.ordinal), "lock state at the end of a loop iteration equals the state at its start", e.fc.Props, st, Eq(v, h0), from.Instrs[len(from.Instrs)-1].Pos())
+		}
 	}
 	if ls.Decreases != nil {
 		env.polarity = polProve
@@ -608,6 +640,16 @@ func (e *Exec) execBlock(b *ssa.BasicBlock, in *State) {
 		case *ssa.Phi:
 			// done at merge
 		case *ssa.DebugRef:
+			if e.parent == nil && e.fc != nil && !x.IsAddr && x.Object() != nil {
+				if _, isPhi := x.X.(*ssa.Phi); !isPhi {
+					if _, done := e.defSeen[x.X]; !done {
+						if _, computed := e.vals[x.X]; computed {
+							e.defSeen[x.X] = true
+							e.siteAsserts(x, x.Object().Name(), nil, st, "def", nil)
+						}
+					}
+				}
+			}
 		case *ssa.If:
 			c := e.scalarOf(e.val(x.Cond))
 			t := st.clone()
@@ -720,6 +762,31 @@ func (e *Exec) doReturn(r *ssa.Return, st *State) {
 			}
 			e.addObl("post", label, text, e.fc.clauseProps(cl), st, g, r.Pos())
 		}
+	}
+	for k, v := range st.ghost {
+		if strings.HasPrefix(k, "held:") {
+			e.addObl("lock", "released"+e.retSuffix(r), "every mutex taken by the function is released when it returns", e.fc.Props, st, Eq(v, ConstI(0, I64)), r.Pos())
+		}
+	}
+	for _, cs := range e.fc.Consumes {
+		cenv := e.newEnv(st, e.entry)
+		cenv.results = vals
+		cenv.resultNames = resultNames(e.fn)
+		cenv.polarity = polProve
+		// the function value is the one named at entry
+		oenv := *cenv
+		oenv.inOld = true
+		id := e.scalarOf(oenv.eval(cs.Expr))
+		cnt := Sub(e.invGet(st, id), e.invGet(e.entry, id))
+		extra := ConstI(0, I64)
+		if cs.Unless != nil {
+			extra = Ite(cenv.withNeg(func() *Term { return cenv.evalBool(cs.Unless) }), ConstI(1, I64), ConstI(0, I64))
+		}
+		props := cs.Props
+		if len(props) == 0 {
+			props = e.fc.Props
+		}
+		e.addObl("once", cs.Name+e.retSuffix(r), "exactly once: invoked("+cs.Name+") + (deferred ? 1 : 0) == 1   ["+cs.Text+"]", props, st, Eq(Add(cnt, extra), ConstI(1, I64)), r.Pos())
 	}
 	e.refinePost(st, vals, r)
 	if e.fc.HasModifies {
@@ -992,4 +1059,29 @@ func (e *Exec) retSuffix(r *ssa.Return) string {
 		}
 	}
 	return ""
+}
+
+// invObligations: one obligation per top-level conjunct of a loop invariant clause.
+func (e *Exec) invObligations(env *Env, cl *Clause, k int, li *loopInfo, phase string, st *State, pos token.Pos) {
+	parts := e.splitConj(env, cl.Expr, nil, 0)
+	for pi, pt := range parts {
+		pe := *env
+		pe.vars = pt.vars
+		pe.site = pt.site
+		if pt.pkg != nil {
+			pe.pkg = pt.pkg
+		}
+		if pt.site {
+			pe.block = nil
+		}
+		pe.polarity = polProve
+		g := pe.evalBool(pt.x)
+		label := fmt.Sprintf("loop%d/%s/%s", li.ordinal, clauseLabel(cl, k), phase)
+		text := cl.Text
+		if len(parts) > 1 {
+			label = fmt.Sprintf("loop%d/%s.%d/%s", li.ordinal, clauseLabel(cl, k), pi+1, phase)
+			text = pt.x.String() + "   [part of: " + cl.Text + "]"
+		}
+		e.addObl("inv", label, text, e.fc.clauseProps(cl), st, g, pos)
+	}
 }
